@@ -432,6 +432,19 @@ def _coherence_one(tag, target, flow, x, ll, lp, lq, bits, where):
         dens = flow._log_density(x) if hasattr(flow, "_log_density") else None
         if dens is not None:
             tq = dict(rtol=max(t["rtol"], 1e-9), atol=max(t["atol"], 1e-4 if bits == 32 else 1e-8))
+            if bits == 32:
+                # log_q of a *drawn* row is computed at the proposal's float64
+                # point and the row is then rounded to float32: allow what one
+                # float32 ulp of x can move log q (large next to a bound)
+                sens = np.zeros(len(x))
+                for j in range(x.shape[1]):
+                    for sgn in (-1.0, 1.0):
+                        xs = x.copy()
+                        xs[:, j] = xs[:, j] + sgn * 1.5 * np.spacing(np.abs(xs[:, j]).astype(np.float32)).astype(np.float64)
+                        with np.errstate(all="ignore"):
+                            dv = np.abs(flow._log_density(xs) - dens)
+                        sens = np.maximum(sens, np.where(np.isfinite(dv), dv, np.inf))
+                tq = dict(rtol=tq["rtol"], atol=tq["atol"], extra=2.0 * sens)
             checks.append(("c10.log_q", "log_q", f64(lq), dens, tq))
     for c in checks:
         oid, name, got, want = c[:4]
@@ -439,6 +452,27 @@ def _coherence_one(tag, target, flow, x, ll, lp, lq, bits, where):
         if got.shape != want.shape:
             out.append(
                 violation(oid, f"{tag}: {name} has shape {got.shape} for {len(x)} rows", where, population=tag)
+            )
+            continue
+        extra = None
+        if "extra" in tt:
+            tt = dict(tt)
+            extra = tt.pop("extra")
+        if extra is not None and got.shape == want.shape:
+            fin = np.isfinite(got) & np.isfinite(want)
+            okrow = np.where(fin, np.abs(got - want) <= tt["atol"] + tt["rtol"] * np.abs(want) + extra,
+                             (got == want) | (np.isnan(got) & np.isnan(want)))
+            if np.all(okrow):
+                continue
+            bad = np.flatnonzero(~okrow)
+            i = int(bad[0])
+            out.append(
+                violation(
+                    oid,
+                    f"{tag}: stored {name}[{i}]={got[i]!r} but the proposal at row {i} gives {want[i]!r} "
+                    f"({len(bad)} of {len(got)} rows differ)",
+                    where, population=tag, n_bad=int(len(bad)),
+                )
             )
             continue
         if not close(got, want, **tt):
